@@ -29,3 +29,17 @@ def note_option_to_dbml(note: 'Note') -> str:
 
 def comment_to_dbml(val: str) -> str:
     return comment(val, '//')
+
+
+def quote_name_if_needed(name: str) -> str:
+    """A bare identifier may only consist of letters, digits and underscores."""
+    if re.fullmatch(r'[A-Za-z0-9_]+', name):
+        return name
+    return f'"{name}"'
+
+
+def quote_type_if_needed(type_: str) -> str:
+    """Bare types are `word`, `word(args)`, `word[]` and `schema.word`; anything else is quoted."""
+    if re.fullmatch(r'[A-Za-z0-9_]+(\(.*\)|\[\])?|[A-Za-z0-9_]+\.[A-Za-z0-9_]+', type_, re.DOTALL):
+        return type_
+    return f'"{type_}"'
